@@ -18,14 +18,14 @@ import (
 )
 
 type c09Case struct {
-	L         int    `json:"nodes_lacking_pod"`
-	K         int    `json:"nodes_with_pod"`
-	T         int    `json:"elapsed_since_active_s"`
-	I         int    `json:"slowStartInterval_s"`
-	Increase  string `json:"slowStartAdditiveIncrease"`
-	Parallel  int32  `json:"maxParallelPodCreation"`
-	ActiveCnd string `json:"active_condition"`
-	Untargeted int   `json:"listed_nodes_not_targeted"` // nodes with an untolerated taint: listed, but not targeted
+	L          int    `json:"nodes_lacking_pod"`
+	K          int    `json:"nodes_with_pod"`
+	T          int    `json:"elapsed_since_active_s"`
+	I          int    `json:"slowStartInterval_s"`
+	Increase   string `json:"slowStartAdditiveIncrease"`
+	Parallel   int32  `json:"maxParallelPodCreation"`
+	ActiveCnd  string `json:"active_condition"`
+	Untargeted int    `json:"listed_nodes_not_targeted"` // nodes with an untolerated taint: listed, but not targeted
 }
 
 func c09Cases(thorough bool) []c09Case {
